@@ -5,6 +5,7 @@ import (
 	"github.com/modernizing/coca/pkg/domain/core_domain"
 	"io/ioutil"
 	"log"
+	"sort"
 	"strings"
 )
 
@@ -25,8 +26,16 @@ func (j *RemoveMethodApp) Refactoring(conf string) {
 	startParse(parsedDeps, parsedChange)
 }
 
+// renameSite is one identifier to replace: the name of a declaration or the callee of a call.
+type renameSite struct {
+	node   core_domain.CodeDataStruct
+	method core_domain.CodeFunction
+	info   *support.PackageClassInfo
+}
+
 func startParse(nodes []core_domain.CodeDataStruct, relates []support.RefactorChangeRelate) {
 	for _, pkgNode := range nodes {
+		var sites []renameSite
 		for _, related := range relates {
 			oldInfo := support.BuildMethodPackageInfo(related.OldObj)
 			newInfo := support.BuildMethodPackageInfo(related.NewObj)
@@ -34,7 +43,7 @@ func startParse(nodes []core_domain.CodeDataStruct, relates []support.RefactorCh
 			if pkgNode.Package+pkgNode.NodeName == oldInfo.Package+oldInfo.Class {
 				for _, method := range pkgNode.Functions {
 					if method.Name == oldInfo.Method {
-						updateSelfRefs(pkgNode, method, newInfo)
+						sites = append(sites, renameSite{pkgNode, method, newInfo})
 					}
 				}
 			}
@@ -43,11 +52,24 @@ func startParse(nodes []core_domain.CodeDataStruct, relates []support.RefactorCh
 				for _, methodCall := range method.FunctionCalls {
 					if methodCall.Package+methodCall.NodeName == oldInfo.Package+oldInfo.Class {
 						if methodCall.FunctionName == oldInfo.Method {
-							updateSelfRefs(pkgNode, methodCallToMethodModel(methodCall), newInfo)
+							sites = append(sites, renameSite{pkgNode, methodCallToMethodModel(methodCall), newInfo})
 						}
 					}
 				}
 			}
+		}
+
+		// the columns of a site are those of the original line: rewrite the sites of a line from
+		// right to left, so that a replacement never moves a site that is still to be rewritten
+		sort.SliceStable(sites, func(i, j int) bool {
+			a, b := sites[i].method.Position, sites[j].method.Position
+			if a.StartLine != b.StartLine {
+				return a.StartLine < b.StartLine
+			}
+			return a.StartLinePosition > b.StartLinePosition
+		})
+		for _, site := range sites {
+			updateSelfRefs(site.node, site.method, site.info)
 		}
 	}
 }
